@@ -192,6 +192,11 @@ func (w *World) Rel(p *types.Package) string {
 
 // QualName gives "analysis.(*Enum).setIsIota" / "generator/sql.codeFor".
 func (w *World) QualName(fn *types.Func) string {
+	if _, rebound := renamedFull[fn]; rebound {
+		if fi := w.Funcs[fn]; fi != nil && fi.Name != "" {
+			return fi.Name // an anchor rebound after a rename answers to the name the rules know
+		}
+	}
 	rel := w.Rel(fn.Pkg())
 	sig, _ := fn.Type().(*types.Signature)
 	if sig != nil && sig.Recv() != nil {
